@@ -29,6 +29,8 @@ def loop_plan(prop):
             if prop in ("C08", "C09"):
                 ctx.mc_replay("nest7", "MC_Loop.tla", "MC_Loop_hist.cfg", "fam_nest.json", props, variants=1, consts={"MaxLen": 7}, timeout=3000)
             ctx.trace("sessions", props, sessions=400, calls=40, timeout=3000, check_attrs=True)
+            if prop in ("C01", "C05"):
+                ctx.apalache_inductive()
         return dict(rule=LOOP_RULE, exhaustive=False, assumptions=ASSUME_COMMON)
     return run
 
